@@ -889,9 +889,24 @@ class SymStr(str):
     def __mod__(self, o):
         raise Inconclusive("a symbolic string reached % formatting")
 
+    def split(self, sep=None, maxsplit=-1):
+        """split on a concrete separator; the number of pieces is forked (bounded by 8)"""
+        if not isinstance(sep, str) or isinstance(sep, SymStr) or not sep:
+            raise Inconclusive("split on whitespace / symbolic separator")
+        out, rest, n = [], self.e, 0
+        sv = z3.StringVal(sep)
+        while True:
+            if n >= 8 or (maxsplit >= 0 and n >= maxsplit) or not CTX.decide(z3.Contains(rest, sv)):
+                out.append(SymStr(rest))
+                return out
+            i = z3.IndexOf(rest, sv, z3.IntVal(0))
+            out.append(SymStr(z3.SubString(rest, z3.IntVal(0), i)))
+            rest = z3.SubString(rest, i + len(sep), z3.Length(rest) - i - len(sep))
+            n += 1
+
     def _no(self, *a, **k):
         raise Inconclusive("unsupported str method on a symbolic string")
-    strip = lstrip = rstrip = split = rsplit = replace = join = encode = find = index = title = capitalize = _no
+    strip = lstrip = rstrip = rsplit = replace = join = encode = find = index = title = capitalize = _no
     isdigit = isalpha = isalnum = isspace = partition = splitlines = zfill = casefold = _no
     __getitem__ = __iter__ = __mul__ = __rmul__ = __lt__ = __le__ = __gt__ = __ge__ = _no
 
